@@ -155,4 +155,10 @@ def run(ctx):
             pv = dict(bd[4]).get(pin_name) if bd[0] == "agg" else None
             okr = okr and scan.is_acc_result(sc, pa, pv)
         ctx.check(okr, "scan:accumulates-into-result", "the returned board's pinned set is not the set the scan accumulated (%s)" % pa, where)
-    ctx.assumptions += ["the hash of the result is kept in step by the writers (C10)", "old half-move clock within 0..=100 (C06 gate, preserved by C02/C14)"]
+    # the result's hash equals a fresh board's only if the position-state writers keep hash and state in lock-step
+    # (owned by C10; re-run here because null_move composes two of them)
+    from . import c10
+    expl = ctx.explanation
+    c10.run(ctx)
+    ctx.explanation = expl
+    ctx.assumptions += ["the hash of the result is kept in step by the writers (C10, re-run above)", "old half-move clock within 0..=100 (C06 gate, preserved by C02/C14)"]
